@@ -557,7 +557,7 @@ impl<'a> Machine<'a> {
                         _ => return Err(Viol::new(Class::Text, format!("call of unknown runtime symbol {sym}"))),
                     };
                     if sp % 16 != 0 {
-                        self.c.out.soft.push(Viol::new(
+                        self.c.soft(Viol::new(
                             Class::Align,
                             format!("call {sym} at line {} with rsp = entry_sp{:+}, not 16-byte aligned", self.line(), sp as i64 - entry_sp as i64),
                         ));
@@ -614,7 +614,7 @@ impl<'a> Machine<'a> {
                         let e = self.entry_regs[r as usize];
                         let c = self.regs[r as usize];
                         if e.v != c.v || (e.u == 0) != (c.u == 0) {
-                            self.c.out.soft.push(Viol::new(
+                            self.c.soft(Viol::new(
                                 Class::Abi,
                                 format!("callee-saved register {} not restored at return ({:#x} instead of {:#x})", REG_NAMES[r as usize], c.v, e.v),
                             ));
